@@ -34,7 +34,7 @@ ASSUMPTIONS = [
 
 NUMBER_RE = re.compile(
     r"^\s*[+-]?(?:(?:\d+\.?\d*|\.\d+)(?:[eE][+-]?\d+)?|\d+(?:\.\d*)?(?:[:; ]+\d+(?:\.\d*)?){1,2})\s*$"
-)
+)  # \d also matches non-ASCII digits, which Python's float() reads too; they are tolerated here (not INDI, but they denote numbers)
 
 PY_INTERNAL = [
     "indi.message.const", "indi.message", "indi.message.checks", "indi.message.base", "indi.device.properties.const",
@@ -48,6 +48,8 @@ CATALOGUE = (
     + ["ok", "OK", "on", "ON", "off", "idle", "RW", "Rw", "oneofmany", "never", "ALSO"]
     + ["Ok", "On", "rw", "OneOfMany", "Also", "Idle", "Off", "ro", "Never"]  # members of *other* vocabularies
     + ["x", "0", "1", "Okay", "On ", "O n", "Ok,Busy", "Ok\nBusy", "é", "<&>"]
+    # things Python's own conversions accept but INDI number syntax does not
+    + ["nan", "NaN", "inf", "-inf", "+Infinity", "infinity", "1_000", "1_0.5e1_0", "0x10", "0b1", "1e", "e5", "1.2.3", "--1", "1 ", " 1", "1:2:3:4", "1:", ":30", "1::30", "1j", "1e5L", "١٢٣"]
     + PY_INTERNAL
 )
 
